@@ -68,6 +68,10 @@ func ContextP(t *rapid.T, p uint32) core.Ctx {
 		lo = 1
 	}
 	switch k := Pick(t, 1000, "emaxk"); {
+	case k >= 300 && k < 450:
+		// MaxExponent below the precision: a full-length coefficient then only fits with a
+		// negative exponent (nothing in the package requires MaxExponent >= Precision)
+		c.Emax = int32(rapid.IntRange(0, lo).Draw(t, "emaxlow"))
 	case k < 450:
 		c.Emax = int32(rapid.IntRange(lo, lo+20).Draw(t, "emax"))
 	case k < 998:
